@@ -69,6 +69,7 @@ def use_imul(u):
         u.bg.append(z3.ForAll([b], z3.And(IMUL(0, b) == 0, IMUL(1, b) == b, IMUL(b, 0) == 0, IMUL(b, 1) == b),
                               qid="imul-01", patterns=[IMUL(0, b), IMUL(1, b), IMUL(b, 0), IMUL(b, 1)]))
         u.bg.append(z3.ForAll([a, b], z3.Implies(z3.And(a >= 0, b >= 0), IMUL(a, b) >= 0), qid="imul-sign", patterns=[IMUL(a, b)]))
+        u.bg.append(z3.ForAll([a, b], IMUL(a, b + 1) == IMUL(a, b) + a, qid="imul-succ", patterns=[IMUL(a, b + 1)]))
     return IMUL
 
 
